@@ -1153,7 +1153,7 @@ class Suspender(Interrupter):
             # marked done from outside of its own run while still entered by
             # this frame so clean up as if it had completed in its last run
             self.deactivate(aux)
-            framer.reactivate()
+            self.resume(framer)
             return None
 
         if aux.done: #not active
@@ -1204,7 +1204,7 @@ class Suspender(Interrupter):
 
             if aux.done: #if done after this iteraion clean up
                 self.deactivate(aux)
-                framer.reactivate()
+                self.resume(framer)
                 return None
 
             return aux
@@ -1213,6 +1213,21 @@ class Suspender(Interrupter):
     def _expose(self):
         """      """
         console.terse("Suspender {0}\n".format(self.name))
+
+    def resume(self, framer):
+        """Restore the active outline of framer after a conditional aux completed.
+           When another conditional aux of a frame in the outline is still
+           running the outline stays truncated at that aux's main frame
+        """
+        framer.reactivate()
+        for frame in framer.actives:
+            for act in frame.preacts:
+                if isinstance(act.actor, Suspender):
+                    aux = act.parms.get('aux')
+                    if (isinstance(aux, framing.Framer) and not aux.done and
+                            aux.active and aux.main is frame):
+                        framer.change(frame.head, frame.headHuman)
+                        return
 
     def deactivize(self, aux, **kwa):
         """ If aux still entered by this frame Then force deactivate. Used in exit action."""
